@@ -40,7 +40,10 @@ impl Outcome {
 
     fn generate_testcase_exit_code(&self) -> Option<String> {
         match &self.output.exit_code {
-            ExitStatus::Code(code) if *code != 0 => Some(formatln!("[{}]", code)),
+            // a zero is written out only where the test itself spells it out
+            ExitStatus::Code(code) if *code != 0 || self.testcase.exit_code == Some(0) => {
+                Some(formatln!("[{}]", code))
+            }
             _ => None,
         }
     }
